@@ -37,7 +37,7 @@ def main():
         "setup_cmd": "./check --build",
         "hooks": {
             "guard": "cargo feature `verif` of crate marwood",
-            "enable": "harness/mwv/Cargo.toml depends on marwood = { path = \"/repo/marwood\", features = [\"verif\"] }",
+            "enable": "harness/mwv/Cargo.toml depends on marwood = { path = \"../../sut\", features = [\"verif\"] } where /verif/sut is a symlink to /repo/marwood (re-pointed by ./check; VERIF_REPO=<dir> selects a scratch copy for sensitivity experiments)",
             "baseline_off_cmd": "cd /repo && cargo test --workspace --no-fail-fast --offline",
             "source_commits": ["bb1ef1b"],
             "add_only": True,
